@@ -105,7 +105,6 @@ theorem pinauth_gate_table :
   intro idx j hi hj
   have := checkTable_get key rows_length idx j hi hj
   generalize outcomeAt idx j = o at this ⊢
-  generalize pointAt idx j = p at this ⊢
   simp only [pinauthGateOk, Bool.and_eq_true, Bool.or_eq_true, Bool.not_eq_true', decide_eq_true_eq,
     beq_iff_eq, bne_iff_ne, ne_eq, Bool.and_eq_false_imp, decide_eq_false_iff_not,
     Bool.or_eq_false_iff, beq_eq_false_iff_ne] at this
@@ -136,7 +135,6 @@ theorem printpin_gate_table :
   intro idx j hi hj ho
   have := checkTable_get key rows_length idx j hi hj
   generalize outcomeAt idx j = o at this ho
-  generalize pointAt idx j = p at this ⊢
   simp only [printpinGateOk] at this
   rcases ho with rfl | rfl <;> simpa [and_assoc] using this
 
